@@ -132,7 +132,35 @@ def facts(U, root):
         if d["kind"] == "struct" and any(f["mode"] == "flatten" for f in d["fields"]): F.add("flatten")
         if d["kind"] == "enum":
             tg = d["tag"] if isinstance(d["tag"], str) else list(d["tag"])[0]
-            if tg == "untagged": F.add("untagged")
+            if tg == "untagged":
+                F.add("untagged")
+                # typify keeps an untagged union only when its branches are told apart by JSON type (integer and number
+                # count as different); the listed finding is about unions whose branches are NOT: same class twice
+                def classes(te, fuel=8):
+                    k = te[0]
+                    if fuel <= 0: return {"*"}
+                    if k == "int": return {"integer"}
+                    if k == "float": return {"number"}
+                    if k in ("string", "char"): return {"string"}
+                    if k == "bool": return {"boolean"}
+                    if k == "unit": return {"null"}
+                    if k == "option": return classes(te[1], fuel - 1) | {"null"}
+                    if k == "box": return classes(te[1], fuel - 1)
+                    if k in ("vec", "set", "array", "tuple"): return {"array"}
+                    if k == "map": return {"object"}
+                    if k == "ref":
+                        dd = D.get(te[1])
+                        if dd is None: return {"*"}
+                        if dd["kind"] in ("struct",): return {"object"}
+                        if dd["kind"] == "tuple_struct": return {"array"}
+                        if dd["kind"] == "unit_struct": return {"null"}
+                        if dd["kind"] == "newtype_struct": return classes(dd["ty"], fuel - 1)
+                        return {"*"}
+                    return {"*"}
+                cls = []
+                for v in d["variants"]:
+                    cls.append({"null"} if v["kind"] == "unit" else classes(v["ty"]) if v["kind"] == "newtype" else {"array"} if v["kind"] == "tuple" else {"object"})
+                if any("*" in a for a in cls) or any(a & b for i, a in enumerate(cls) for b in cls[i + 1:]): F.add("untagged_overlap")
             for v in d["variants"]:
                 if tg in ("adjacent", "external") and v["kind"] == "newtype" and null_only(U, v["ty"]): F.add("unit_payload_variant")
                 if tg == "internal" and v["kind"] == "newtype": F.add("internal_newtype")
@@ -166,7 +194,7 @@ def attribute(findings, info):
         return hit("C04-root-route-recursive-root")
     if route == "root" and "root_enum_struct_variant" in F and kind == "gen_failed" and "type_entry.rs" in (info.get("message") or "") and hit("C04-root-route-enum-struct-variant"):
         return hit("C04-root-route-enum-struct-variant")
-    if has_flatten(info.get("dump")) and "untagged" in F and "flatten" not in F and hit("C04-untagged-not-exclusive"):
+    if has_flatten(info.get("dump")) and "untagged_overlap" in F and "flatten" not in F and hit("C04-untagged-not-exclusive"):
         return hit("C04-untagged-not-exclusive")
     if kind == "accept" and st.get("ptr_int_beyond_32_bits") and re.search(r"expected [ui]32|did not match any variant", info.get("message") or "") and hit("C04-ptr-int-32"):
         return hit("C04-ptr-int-32")
